@@ -41,7 +41,17 @@ def results(tr):
     err = None
     if tr.error is not None:
         err = (tr.error[0], tr.error[1], str(tr.error[2]))
-    return json.loads(json.dumps({'equity': eq, 'fills': fills, 'alloc': alloc, 'error': err}, default=str))
+    table = []
+    if tr.error is None and tr.session is not None and any(r['row'] is not None for r in tr.pcm):
+        # the table a user gets from the session (forward-filled onto the equity dates)
+        try:
+            df = tr.session.get_target_allocations()
+            cols = sorted(df.columns)
+            for d, row in zip(df.index, df[cols].itertuples(index=False)):
+                table.append((str(d) + ' 00:00:00', [[c, hx(v)] for c, v in zip(cols, row)]))
+        except Exception as e:
+            table.append(('0000-00-00 00:00:00', 'raised %s' % type(e).__name__))
+    return json.loads(json.dumps({'equity': eq, 'fills': fills, 'alloc': alloc, 'table': table, 'error': err}, default=str))
 
 
 def digest(res):
@@ -54,7 +64,7 @@ def day_of(stamp):
 
 def truncate(res, T):
     """Entries dated on or before day T (ISO date string)."""
-    out = {k: [x for x in res[k] if day_of(x[0]) <= T] for k in ('equity', 'fills', 'alloc')}
+    out = {k: [x for x in res.get(k, []) if day_of(x[0]) <= T] for k in ('equity', 'fills', 'alloc', 'table')}
     err = res['error']
     out['error'] = None
     if err is not None and (err[2] == 'construction' or err[2] == 'None' or day_of(err[2]) <= T):
@@ -63,13 +73,13 @@ def truncate(res, T):
 
 
 def first_difference(a, b):
-    for k in ('fills', 'equity', 'alloc'):
-        for i, (x, y) in enumerate(zip(a[k], b[k])):
+    for k in ('fills', 'equity', 'alloc', 'table'):
+        for i, (x, y) in enumerate(zip(a.get(k, []), b.get(k, []))):
             if x != y:
                 return k, i, x, y
-        if len(a[k]) != len(b[k]):
-            i = min(len(a[k]), len(b[k]))
-            return k, i, (a[k][i] if i < len(a[k]) else None), (b[k][i] if i < len(b[k]) else None)
+        if len(a.get(k, [])) != len(b.get(k, [])):
+            i = min(len(a.get(k, [])), len(b.get(k, [])))
+            return k, i, (a[k][i] if i < len(a.get(k, [])) else None), (b[k][i] if i < len(b.get(k, [])) else None)
     if a['error'] != b['error']:
         return 'error', 0, a['error'], b['error']
     return None
@@ -131,7 +141,7 @@ def twin(cfg, rw, acc, pre=False):
     try:
         shared = None
         if pre:
-            shared = {}
+            shared = {'share_handler': cfg['market']['seed'] % 2 == 0}
             sesswl.run_session(pre_session_cfg(cfg), wa, shared=shared)
         ta = sesswl.run_session(cfg, wa, shared=shared)
         ra = results(ta)
@@ -142,7 +152,7 @@ def twin(cfg, rw, acc, pre=False):
     try:
         shared = None
         if pre:
-            shared = {}
+            shared = {'share_handler': cfg['market']['seed'] % 2 == 0}
             sesswl.run_session(pre_session_cfg(cfg), wb, shared=shared)
             acc.count('C07:twins_on_a_data_source_that_served_an_earlier_session')
         tb = sesswl.run_session(cfg, wb, shared=shared)
@@ -152,6 +162,9 @@ def twin(cfg, rw, acc, pre=False):
     acc.count('C07:twins')
     acc.count('C07:reads_observed', len(ta.reads))
     acc.count('C07:future_reads', len(fut))
+    if ra['error'] is not None or rb['error'] is not None:
+        # the table is only obtainable from a run that completed; a failure after T in one world says nothing about <= T
+        ra, rb = dict(ra, table=[]), dict(rb, table=[])
     A, B = truncate(ra, T), truncate(rb, T)
     acc.count('C07:compared_equity_points', len(A['equity']))
     acc.count('C07:compared_fills', len(A['fills']))
@@ -260,6 +273,15 @@ def gen_c18_cfg(rng, max_days=60):
         for a in assets[len(assets) - k:]:
             dates[a] = same
     cfg['universe']['dates'] = dates
+    if rng.random() < 0.6 and cfg['alpha']['kind'] in ('single', 'mom_sign', 'inv_vol'):
+        # a second data source: same tickers priced differently for some, plus one ticker only it carries
+        m2 = json.loads(json.dumps(cfg['market']))
+        m2['seed'] = cfg['market']['seed'] + 31337
+        m2['assets'] = rng.sample(cfg['market']['assets'], max(1, len(cfg['market']['assets']) // 2)) + ['ZZZ']
+        m2['ratio'] = {s_: 1.0 for s_ in m2['assets']}
+        m2.pop('late', None); m2.pop('shift', None); m2.pop('level', None)
+        cfg['market2'] = m2
+        cfg['universe']['dates']['EQ:ZZZ'] = cfg['start']
     if cfg['alpha']['kind'] == 'topn_mom':
         cfg['alpha']['lookback'] = rng.choice([1, 2, 3, 5])
         cfg['alpha']['top'] = rng.randint(1, len(assets) - 1)
@@ -291,6 +313,10 @@ def storm(rng, source, world, cfg, n=300, handler=None):
     """Fill the memoised price lookups with a shuffled pre-query storm (also through the shared handler, if any)."""
     start = pd.Timestamp(cfg['start'])
     assets = list(world.ev)
+    extra_only = []
+    if getattr(world, 'extra', None) is not None:
+        extra_only = [a for a in world.extra.ev if a not in world.ev]
+        assets = assets + extra_only
     qs = []
     for _ in range(n):
         t = start + pd.Timedelta(days=rng.randint(-40, 400), minutes=rng.choice([0, 870, 1260, rng.randint(0, 1439)]))
@@ -302,7 +328,8 @@ def storm(rng, source, world, cfg, n=300, handler=None):
         except Exception:
             pass
     if handler is not None:
-        for t, a, side in qs[:150]:
+        tail = [(start + pd.Timedelta(days=3, hours=15), a, 'get_bid') for a in extra_only]   # the last thing asked: an asset
+        for t, a, side in qs[:150] + tail:                                                  # only the second source carries
             try:
                 handler.get_asset_latest_bid_ask_price(t, a)
                 handler.get_asset_latest_mid_price(t, a)
